@@ -94,6 +94,7 @@ def stackStep (st : StackSt) (op : List String) (env : List (Option Nat)) (obsSt
     | ["shrink"] =>
       let (s', ev) := s.shrinkToFit cfg
       ({ st with stack := some s' }, "done", upStr ev, s'.str)
+    | ["try_dealloc", p] => (st, if s.arena.owns (nat! p) then "true" else "false", "", s.str)
     | ["capacity_left"] =>
       (st, match s.capacityLeft with | some n => (Out.num n).str | none => "crash", "", s.str)
     | ["next_capacity"] => (st, (Out.num s.nextCapacity).str, "", s.str)
@@ -155,6 +156,7 @@ def iterStep (st : StackSt) (op : List String) (env : List (Option Nat)) (obsSta
     | ["next"] =>
       let it' := it.nextIteration
       ({ st with iter := some it' }, "done", "", it'.str)
+    | ["try_dealloc", p] => (st, if it.contains (nat! p) then "true" else "false", "", it.str)
     | ["capacity_left", i] => (st, (Out.num (it.capacityLeft (nat! i))).str, "", it.str)
     | ["move"] =>
       ({ st with iter := some it, iterMoved := some it.movedFrom }, "done", "", it.str)
